@@ -7,6 +7,7 @@
   current (objective, sense, constraints).  Bounds are not part of `CacheInv`: the model (like the
   repaired code) *re-reads* them at every solve, which is what `solve_bounds_current` states.
 -/
+import Optyx.Props.Glue
 import Optyx.Lemmas.State
 
 namespace Optyx.Props.C13
